@@ -157,6 +157,8 @@ func otherLiterals() []literal {
 		"0x1G", "0xG", "12ab", "1x", "1_000", "0b", "0x", "0o", "0b1_", "0o7_", "0b1x", "0b01b", "0o17o", "0b1T", "0o7F", "1T",
 		// two numbers glued together by a sign or a point are not two values
 		"1.2.3", "192.168.0.1", "2e28.2", "0x1Fe+5", "1-2", "1+2", "1.5-2", "5.5.5", "1e5.0", "0b1-1", "3-", "3+",
+		// a sign that stands alone (or is doubled, or is separated from its digits) is not a number
+		"+", "-", "- 1", "+ 1", "--1", "++1", "+-1", "-+1", "-0x", "+0b",
 		// a line end inside the quotes (also directly after the opening quote) leaves the string unclosed
 		"\"\n\"", "\"\r\"", "\"\r\n\"", "\"a\nb\"", "\"a\n\"", "\"\na\""} {
 		out = append(out, literal{Text: v, Class: "malformed"})
